@@ -34,8 +34,8 @@ func retErr(e *string) error {
 
 var unencodable = make(chan int)
 
-func pInt(s string) int64    { v, err := strconv.ParseInt(s, 10, 64); must(err); return v }
-func pUint(s string) uint64  { v, err := strconv.ParseUint(s, 10, 64); must(err); return v }
+func pInt(s string) int64        { v, err := strconv.ParseInt(s, 10, 64); must(err); return v }
+func pUint(s string) uint64      { v, err := strconv.ParseUint(s, 10, 64); must(err); return v }
 func (f *encFloat) f64() float64 { return math.Float64frombits(pUint(f.Bits)) }
 func (f *encFloat) f32() float32 { return math.Float32frombits(uint32(pUint(f.Bits))) }
 func (c *encComplex) c128() complex128 {
